@@ -9,6 +9,7 @@ import (
 	"github.com/tevino/abool"
 
 	"github.com/safing/portbase/log"
+	"github.com/safing/portbase/utils/vhook"
 )
 
 // TODO: getting some errors when in nanosecond precision for tests:
@@ -229,6 +230,7 @@ func (m *Module) concludeMicroTask() {
 	// Finish for module.
 	atomic.AddInt32(m.microTaskCnt, -1)
 	m.checkIfStopComplete()
+	vhook.AtS("modules.mt.conclude", m.Name)
 
 	// Finish and possibly trigger next task.
 	atomic.AddInt32(microTasks, -1)
@@ -301,6 +303,7 @@ func microTaskScheduler() {
 			// Send clearance signal and increase task counter.
 			if clearanceSignal != nil {
 				close(clearanceSignal)
+				vhook.At("modules.mt.granted")
 				atomic.AddInt32(microTasks, 1)
 			}
 			clearanceSignal = nil
@@ -345,6 +348,7 @@ func getMediumPriorityClearance(maxDelay time.Duration) {
 		select {
 		case mediumPriorityClearance <- signal:
 		case <-time.After(maxDelay):
+			vhook.At("modules.mt.maxdelay")
 			// Start without clearance and increase microtask counter.
 			atomic.AddInt32(microTasks, 1)
 			return
@@ -357,6 +361,7 @@ func getMediumPriorityClearance(maxDelay time.Duration) {
 		select {
 		case <-signal:
 		case <-time.After(maxDelay):
+			vhook.At("modules.mt.maxdelay")
 			// Don't keep waiting for signal forever.
 			// Don't increase microtask counter, as the signal was already submitted
 			// and the counter will be increased by the scheduler.
@@ -373,6 +378,7 @@ func getLowPriorityClearance(maxDelay time.Duration) {
 		select {
 		case lowPriorityClearance <- signal:
 		case <-time.After(maxDelay):
+			vhook.At("modules.mt.maxdelay")
 			// Start without clearance and increase microtask counter.
 			atomic.AddInt32(microTasks, 1)
 			return
@@ -385,6 +391,7 @@ func getLowPriorityClearance(maxDelay time.Duration) {
 		select {
 		case <-signal:
 		case <-time.After(maxDelay):
+			vhook.At("modules.mt.maxdelay")
 			// Don't keep waiting for signal forever.
 			// Don't increase microtask counter, as the signal was already submitted
 			// and the counter will be increased by the scheduler.
